@@ -540,7 +540,7 @@ def mon_attempt_model(sc, r):
         reqs.append((t, f"attempts {kind} {total - 1} {d} - {','.join(outs)} 1 -"))
     if not reqs: return out
     try: answers = vlib.run_driver([q for _, q in reqs])
-    except RuntimeError as e: return [dict(viol(sc, r, "machinery", f"model driver failed: {e}"), machinery=True)]
+    except RuntimeError as e: return [viol(sc, r, "protocol", f"model driver failed: {e}")]
     for (t, q), ans in zip(reqs, answers):
         if ans in ("bad-op", "panic"): out.append(viol(sc, r, "attempt-model", f"the attempt-loop model answers {ans} on {q}")); continue
         wsp, wfin, wds = ans.split(" ")
@@ -864,7 +864,9 @@ def check(monitors, seed, tier, n_quick=13, n_thorough=60):
     def evaluate(sc, r):
         out = []
         for mon in monitors: out += mon(sc, r)
-        return out
+        for v in out:
+            if v["kind"] == "protocol" and v["what"] not in broken: broken.append(v["what"])
+        return [v for v in out if v["kind"] != "protocol"]
     for sc, r in res:
         if getattr(r, "error", None): continue
         vs, note = e2e.confirm(sc, r, evaluate, os.path.join(vlib.BUILD, "e2e-run", f"mix-{seed}"))
